@@ -137,7 +137,20 @@ fn layout(d: &mut Dec, cx: &mut Cx, spaced: bool) -> Res {
     // ---- CR LF
     if with_crlf {
         let mut crlf = item.clone();
-        crlf.text = item.text.replace('\n', "\r\n");
+        // every line break becomes CR LF, or (derived choice, half of the cases) only some of them: a text
+        // may mix both kinds of line ending
+        let mask = if d.derived(0xc71f, 2) == 0 { u32::MAX } else { d.derived(0xc720, 1 << 16) | 1 << (d.derived(0xc721, 3)) };
+        let mut k = 0u32;
+        crlf.text = String::new();
+        for ch in item.text.chars() {
+            if ch == '\n' {
+                if mask >> (k % 16) & 1 == 1 {
+                    crlf.text.push('\r');
+                }
+                k += 1;
+            }
+            crlf.text.push(ch);
+        }
         let (m, next) = draw_map(&crlf, font)?;
         if let Some(df) = diff_maps("text with \\n", &whole_map, "text with \\r\\n", &m) {
             return fail("crlf:pixels", df);
